@@ -203,6 +203,8 @@ def gen_C20(rng, tier):
             cases.append("conveqc %d %d" % (x, y))
     for b in range(256):
         cases.append("fb %d" % b)
+        # the same classification through BootInformation::framebuffer_tag() and FramebufferTag::buffer_type()
+        cases.append(mbi_case(E.mbi([E.t_framebuffer(0x1000, 1, 2, 3, 8, b, E.fb_rgb(1, 2, 3, 4, 5, 6), 0)])))
     cases.append("magic")
     return cases, dict(
         rule="conv/elfty: 0..64, every table/range boundary +-2, 2^k+-1, seeded random u32 (70% uniform, 30% around the ELF "
@@ -685,6 +687,24 @@ def gen_C15(rng, tier):
                 for (es, ea) in USER_ELEMS[:4]:
                     cases.append("cast 1 %d %d %d %s" % (F, es, ea, hx(tb)))
                     dist["dst"] += 1
+    # a slice shorter than the size its header declares (by 1..16 bytes): never accepted, whatever the type cast to
+    for size in range(9, 41):
+        full = tagbytes(size)
+        for short in (8, 16):
+            if short >= len(full):
+                continue
+            tb = full[:len(full) - short]
+            for k in (0, 1, 2, 4):
+                cases.append("cast 0 %d %s" % (k, hx(tb)))
+                dist["sized"] += 1
+            for (es, ea) in USER_ELEMS[:3]:
+                cases.append("cast 1 0 %d %d %s" % (es, ea, hx(tb)))
+                dist["dst"] += 1
+    # header-crate tag structures from slices that miss their padding (length 4 mod 8) or are shorter than declared
+    for n in (8, 12, 16, 20, 24, 28):
+        for d in range(max(8, n - 9), n + 10):
+            cases.append("c14 2 0 %s" % hx((hdr_bytes(2, d, rng) + marker(n, start=n + d))[:n]))
+            dist["header_tag_slices"] = dist.get("header_tag_slices", 0) + 1
     for sel, typ in ((0, 4096), (1, 4097), (2, 1)):
         for size in range(0, 41):
             tb = tagbytes(size, typ)
@@ -715,7 +735,7 @@ def neutralise(typ, body):
 
 
 PROPS.update({
-    "C15": dict(gen=gen_C15, configs=["dev", "rel"], judge=judge_projection(["cast", "get", "load", "get_user"]), both_placements=True,
+    "C15": dict(gen=gen_C15, configs=["dev", "rel"], judge=judge_projection(["cast", "get", "load", "get_user", "ref_from_slice"]), both_placements=True,
                 assumptions=["user-defined types of the harness (dom_cast.rs) declare BASE_SIZE = offset of the tail and dst_len = (size - BASE_SIZE)/element size"]),
 })
 
